@@ -11,7 +11,7 @@ package tabular
 //@ -- ---------------------------------------------------------------------
 
 //@ -- nonnil(ec): the container's list has no nil entry (W8)
-//@ pred nonnil(ec *ErrorContainer) = ec != nil ==> forall i int :: {ec.errors_[i]} 0 <= i && i < len(ec.errors_) ==> ec.errors_[i] != nil
+//@ pred opaque nonnil(ec *ErrorContainer) = ec != nil ==> forall i int :: {ec.errors_[i]} 0 <= i && i < len(ec.errors_) ==> ec.errors_[i] != nil
 
 //@ -- nn(h, el, i): number of non-nil entries among el[0..i) in heap h
 //@ spec rec nn(h (Array Loc Iface), el Slice, i int) int = i <= 0 ? 0 : nn(h, el, i-1) + (h[elemloc(el, i-1)] != nil ? 1 : 0)
@@ -176,6 +176,17 @@ package tabular
 //@   use chain_frame(hc, hk, hv, hc2, hk2, hv2, vchain(hc, p), B)
 //@   tags C12
 
+//@ -- chainsStable: every chain that was well-formed and older than B is still well-formed and means the same map
+//@ pred chainsStable(hc (Array Loc Iface), hk (Array Loc Iface), hv (Array Loc Iface), hc2 (Array Loc Iface), hk2 (Array Loc Iface), hv2 (Array Loc Iface), B int) = forall p Iface :: {chainOK(hc2, hk2, hv2, p)} chainOK(hc, hk, hv, p) && (isvp(p) ==> vp(p).base < B) ==> chainOK(hc2, hk2, hv2, p) && (forall k Iface :: {lookup(hc2, hk2, hv2, p, k)} lookup(hc2, hk2, hv2, p, k) === lookup(hc, hk, hv, p, k))
+
+//@ lemma chains_stable(hc (Array Loc Iface), hk (Array Loc Iface), hv (Array Loc Iface), hc2 (Array Loc Iface), hk2 (Array Loc Iface), hv2 (Array Loc Iface), B int)
+//@   requires forall l Loc :: {hc2[l]} l.base < B ==> hc2[l] === hc[l]
+//@   requires forall l Loc :: {hk2[l]} l.base < B ==> hk2[l] === hk[l]
+//@   requires forall l Loc :: {hv2[l]} l.base < B ==> hv2[l] === hv[l]
+//@   ensures chainsStable(hc, hk, hv, hc2, hk2, hv2, B)
+//@   use forall p Iface :: {chainOK(hc2, hk2, hv2, p)} chain_frame(hc, hk, hv, hc2, hk2, hv2, p, B)
+//@   tags C12
+
 //@ func (*emptyProperty).Value
 //@   tags C12,C09
 //@   assigns nothing
@@ -242,6 +253,8 @@ package tabular
 //@   requires [key-usable] pi != nil ==> key != nil && comparable(dyn(key))
 //@   assigns pi.properties, new(valueProperty)
 //@   ensures [nil-holder] pi == nil ==> result != nil
+//@   ensures [other-chains-untouched] chainsStable(old(heap[valueProperty.chain]), old(heap[valueProperty.key]), old(heap[valueProperty.val]), heap[valueProperty.chain], heap[valueProperty.key], heap[valueProperty.val], old(alloc))
+//@   exit use chains_stable(old(heap[valueProperty.chain]), old(heap[valueProperty.key]), old(heap[valueProperty.val]), heap[valueProperty.chain], heap[valueProperty.key], heap[valueProperty.val], old(alloc))
 //@   ensures [ok] pi != nil ==> result == nil && chainOK(heap[valueProperty.chain], heap[valueProperty.key], heap[valueProperty.val], pi.properties)
 //@   ensures [map-eq-unset] pi != nil && value == nil ==> forall k Iface :: {lookup(heap[valueProperty.chain], heap[valueProperty.key], heap[valueProperty.val], pi.properties, k)} lookup(heap[valueProperty.chain], heap[valueProperty.key], heap[valueProperty.val], pi.properties, k) == (k == key ? nil : lookup(old(heap[valueProperty.chain]), old(heap[valueProperty.key]), old(heap[valueProperty.val]), old(pi.properties), k))
 //@   ensures [map-eq-set] pi != nil && value != nil ==> forall k Iface :: {lookup(heap[valueProperty.chain], heap[valueProperty.key], heap[valueProperty.val], pi.properties, k)} lookup(heap[valueProperty.chain], heap[valueProperty.key], heap[valueProperty.val], pi.properties, k) == (k == key ? value : lookup(old(heap[valueProperty.chain]), old(heap[valueProperty.key]), old(heap[valueProperty.val]), old(pi.properties), k))
@@ -254,23 +267,50 @@ package tabular
 //@ -- table structure (C02, C09, C11): representation invariant WF and the building operations
 //@ -- ---------------------------------------------------------------------
 
+//@ -- cbsLive(s): no nil entry in any of the four callback lists of a set
+//@ pred opaque cbsLive(s callbackSet) = (forall i int :: {s.addTime[i]} 0 <= i && i < len(s.addTime) ==> s.addTime[i] != nil) && (forall i int :: {s.renderTime[i]} 0 <= i && i < len(s.renderTime) ==> s.renderTime[i] != nil) && (forall i int :: {s.preCellRenderTime[i]} 0 <= i && i < len(s.preCellRenderTime) ==> s.preCellRenderTime[i] != nil) && (forall i int :: {s.postCellRenderTime[i]} 0 <= i && i < len(s.postCellRenderTime) ==> s.postCellRenderTime[i] != nil)
+
 //@ -- cellsOK(r): every cell of r knows its row and its 1-based column (W3)
-//@ pred cellsOK(r *Row) = forall j int :: {r.cells[j].columnNum} {r.cells[j].inRow} 0 <= j && j < len(r.cells) ==> r.cells[j].columnNum == j+1 && r.cells[j].inRow == r
+//@ pred opaque cellsOK(r *Row) = forall j int :: {r.cells[j].columnNum} {r.cells[j].inRow} 0 <= j && j < len(r.cells) ==> r.cells[j].columnNum == j+1 && r.cells[j].inRow == r
+
+//@ -- cellsOwn(r): the property chain and callback lists of every cell of r are well-formed (input invariant A-chains)
+//@ pred opaque cellsOwn(r *Row) = forall j int :: {r.cells[j].properties} 0 <= j && j < len(r.cells) ==> chainOK(heap[valueProperty.chain], heap[valueProperty.key], heap[valueProperty.val], r.cells[j].properties) && cbsLive(r.cells[j].callbacks)
+
+//@ -- rowOwn(r): the row's error list has no nil entry (W8)
+//@ pred opaque rowOwn(r *Row) = nonnil(r.ErrorContainer)
+
+//@ -- rowProps(r): the row's own property chain and callback lists are well-formed (input invariant A-chains)
+//@ pred opaque rowProps(r *Row) = chainOK(heap[valueProperty.chain], heap[valueProperty.key], heap[valueProperty.val], r.properties) && cbsLive(r.rowCellCallbacks) && cbsLive(r.rowItselfCallbacks)
 
 //@ -- WFrow(r): a cell row that is not (yet) attached to a table
-//@ pred WFrow(r *Row) = r != nil && !r.isSeparator && r.cells != nil && r.inTable == nil && cellsOK(r)
+//@ pred opaque WFrow(r *Row) = r != nil && !r.isSeparator && r.cells != nil && r.inTable == nil && cellsOK(r) && rowOwn(r)
 
 //@ -- rowIn(t, r, i): r is the i-th (0-based) row of t (W2, W3, W4, W6 and the >= half of W5)
-//@ pred rowIn(t *ATable, r *Row, i int) = r != nil && r.inTable == t && r.rowNum == i+1 && r.ErrorContainer == t.ErrorContainer && (r.isSeparator ==> r.cells == nil) && (!r.isSeparator ==> r.cells != nil && cellsOK(r) && len(r.cells) <= t.nColumns)
+//@ pred opaque rowIn(t *ATable, r *Row, i int) = r != nil && r.inTable == t && r.rowNum == i+1 && r.ErrorContainer == t.ErrorContainer && rowOwn(r) && (r.isSeparator ==> r.cells == nil) && (!r.isSeparator ==> r.cells != nil && cellsOK(r) && len(r.cells) <= t.nColumns)
 
 //@ -- hdrOK(t, h): h is a well-formed header row of t
-//@ pred hdrOK(t *ATable, h *Row) = !h.isSeparator && h.cells != nil && cellsOK(h) && len(h.cells) <= t.nColumns && h.ErrorContainer == t.ErrorContainer
+//@ pred opaque hdrOK(t *ATable, h *Row) = !h.isSeparator && h.cells != nil && cellsOK(h) && rowOwn(h) && len(h.cells) <= t.nColumns && h.ErrorContainer == t.ErrorContainer && h.inTable == nil
 
 //@ -- colsOK(t): the column records (index 0 is the defaults column) are live, distinct and belong to t (W7)
-//@ pred colsOK(t *ATable) = (forall i int :: {t.columns[i]} 0 <= i && i < len(t.columns) ==> t.columns[i] != nil && t.columns[i].ofTable == t) && (forall i int, k int :: {t.columns[i], t.columns[k]} 0 <= i && i < k && k < len(t.columns) ==> t.columns[i] != t.columns[k])
+//@ pred opaque colsOK(t *ATable) = (forall i int :: {t.columns[i]} 0 <= i && i < len(t.columns) ==> t.columns[i] != nil && t.columns[i].ofTable == t) && (forall i int, k int :: {t.columns[i], t.columns[k]} 0 <= i && i < k && k < len(t.columns) ==> t.columns[i] != t.columns[k])
+
+//@ -- colsOwn(t): every column's property chain and callback lists are well-formed
+//@ pred opaque colsOwn(t *ATable) = forall i int :: {t.columns[i]} 0 <= i && i < len(t.columns) ==> chainOK(heap[valueProperty.chain], heap[valueProperty.key], heap[valueProperty.val], t.columns[i].properties) && cbsLive(t.columns[i].cellCallbacks) && cbsLive(t.columns[i].columnItselfCallbacks)
+
+//@ -- tblOwn(t): scalar part of the invariant (W1, W8)
+//@ pred opaque tblOwn(t *ATable) = t != nil && t.ErrorContainer != nil && nonnil(t.ErrorContainer) && t.nColumns >= 0 && t.nColumns <= 1099511627775 && len(t.columns) == t.nColumns + 1
+
+//@ -- tblProps(t): the table's own property chain and callback lists are well-formed (input invariant A-chains)
+//@ pred opaque tblProps(t *ATable) = chainOK(heap[valueProperty.chain], heap[valueProperty.key], heap[valueProperty.val], t.properties) && cbsLive(t.tableItselfCallbacks) && cbsLive(t.tableCellCallbacks) && cbsLive(t.tableRowAdditionCallbacks)
+
+//@ -- rowsOK(t): every row is the row it claims to be (W2..W6)
+//@ pred opaque rowsOK(t *ATable) = forall i int :: {t.rows[i]} 0 <= i && i < len(t.rows) ==> rowIn(t, t.rows[i], i)
+
+//@ -- rowsDisjoint(t): distinct rows (and the header row) own distinct cell arrays (W9)
+//@ pred opaque rowsDisjoint(t *ATable) = (forall i int, k int :: {t.rows[i], t.rows[k]} 0 <= i && i < k && k < len(t.rows) && t.rows[i].cells != nil ==> t.rows[i].cells.arr != t.rows[k].cells.arr) && (forall i int :: {t.rows[i]} 0 <= i && i < len(t.rows) && t.headerRow != nil ==> t.rows[i] != t.headerRow && t.rows[i].cells.arr != t.headerRow.cells.arr)
 
 //@ -- WF(t): the representation invariant of a table
-//@ pred WF(t *ATable) = t != nil && t.ErrorContainer != nil && nonnil(t.ErrorContainer) && t.nColumns >= 0 && len(t.columns) == t.nColumns + 1 && (forall i int :: {t.rows[i]} 0 <= i && i < len(t.rows) ==> rowIn(t, t.rows[i], i)) && colsOK(t) && (t.headerRow != nil ==> hdrOK(t, t.headerRow)) && (forall i int, k int :: {t.rows[i], t.rows[k]} 0 <= i && i < k && k < len(t.rows) && t.rows[i].cells != nil ==> t.rows[i].cells.arr != t.rows[k].cells.arr) && (forall i int :: {t.rows[i]} 0 <= i && i < len(t.rows) && t.headerRow != nil ==> t.rows[i] != t.headerRow && t.rows[i].cells.arr != t.headerRow.cells.arr)
+//@ pred WF(t *ATable) = tblOwn(t) && colsOK(t) && rowsOK(t) && rowsDisjoint(t) && (t.headerRow != nil ==> hdrOK(t, t.headerRow))
 
 //@ func (*ATable).NColumns
 //@   tags C02,C09
@@ -348,6 +388,7 @@ package tabular
 //@   requires [capacity-nonneg] 0 <= c && c <= 1099511627776
 //@   assigns nothing
 //@   ensures WFrow(result) && fresh(result) && len(result.cells) == 0 && fresh(result.cells) && result.ErrorContainer == nil && result.rowNum == 0 && result.properties == nil
+//@   exit unfold chainOK(heap[valueProperty.chain], heap[valueProperty.key], heap[valueProperty.val], result.properties)
 
 //@ func NewRow
 //@   tags C02,C09
@@ -359,6 +400,7 @@ package tabular
 //@   requires t != nil && 0 <= t.nColumns && t.nColumns <= 1099511627776
 //@   assigns nothing
 //@   ensures WFrow(result) && fresh(result) && len(result.cells) == 0 && fresh(result.cells) && result.ErrorContainer == nil && result.rowNum == 0 && result.properties == nil
+//@   exit unfold chainOK(heap[valueProperty.chain], heap[valueProperty.key], heap[valueProperty.val], result.properties)
 
 //@ func (*ATable).resizeColumnsAtLeast
 //@   tags C02,C09,C12
@@ -369,8 +411,11 @@ package tabular
 //@   ensures [handle-stable] forall i int :: {t.columns[i]} {old(t.columns[i])} 0 <= i && i <= old(t.nColumns) ==> t.columns[i] == old(t.columns[i])
 //@   ensures [new-columns-fresh] forall i int :: {t.columns[i]} old(t.nColumns) < i && i <= t.nColumns ==> fresh(t.columns[i]) && t.columns[i].properties == nil
 //@   ensures [no-shrink] newCount <= old(t.nColumns) ==> t.columns === old(t.columns)
+//@   ensures [cols-own] old(colsOwn(t)) ==> colsOwn(t)
 //@   loop#1 invariant -1 <= rangeindex && rangeindex < len(extraColumns) && len(extraColumns) == newCount - old(t.nColumns) && fresh(extraColumns) && t.columns === old(t.columns) && t.nColumns == old(t.nColumns)
-//@   loop#1 invariant forall k int :: {extraColumns[k]} 0 <= k && k <= rangeindex ==> extraColumns[k] != nil && fresh(extraColumns[k]) && extraColumns[k].ofTable == t && extraColumns[k].properties == nil
+//@   loop#1 invariant forall k int :: {extraColumns[k]} 0 <= k && k <= rangeindex ==> extraColumns[k] != nil && fresh(extraColumns[k]) && extraColumns[k].ofTable == t && extraColumns[k].properties == nil && chainOK(heap[valueProperty.chain], heap[valueProperty.key], heap[valueProperty.val], extraColumns[k].properties) && cbsLive(extraColumns[k].cellCallbacks) && cbsLive(extraColumns[k].columnItselfCallbacks)
+//@   loop#1 invariant old(colsOwn(t)) ==> colsOwn(t)
+//@   loop#1 unfold chainOK(heap[valueProperty.chain], heap[valueProperty.key], heap[valueProperty.val], nil)
 //@   loop#1 invariant forall k int, j int :: {extraColumns[k], extraColumns[j]} 0 <= k && k < j && j <= rangeindex ==> extraColumns[k] != extraColumns[j]
 //@   loop#1 invariant colsOK(t)
 //@   loop#1 invariant forall i int :: {t.columns[i]} {old(t.columns[i])} 0 <= i && i < len(t.columns) ==> t.columns[i] == old(t.columns[i])
@@ -384,12 +429,12 @@ package tabular
 //@ spec opaque propsCell(o Iface) Loc = dyn(o) == type[*ATable] ? fldloc(fldloc(o.(*ATable), 1), 0) : (dyn(o) == type[*Row] ? fldloc(fldloc(o.(*Row), 1), 0) : (dyn(o) == type[*Cell] ? fldloc(fldloc(o.(*Cell), 5), 0) : fldloc(fldloc(o.(*column), 4), 0)))
 
 //@ -- ownerOK(o): o is a live table, row, cell or column whose property chain is well-formed
-//@ pred ownerOK(o Iface) = ((dyn(o) == type[*ATable] && o.(*ATable) != nil) || (dyn(o) == type[*Row] && o.(*Row) != nil) || (dyn(o) == type[*Cell] && o.(*Cell) != nil) || (dyn(o) == type[*column] && o.(*column) != nil)) && chainOK(heap[valueProperty.chain], heap[valueProperty.key], heap[valueProperty.val], heap[propertyImpl.properties][propsCell(o)])
+//@ pred opaque ownerOK(o Iface) = ((dyn(o) == type[*ATable] && o.(*ATable) != nil) || (dyn(o) == type[*Row] && o.(*Row) != nil) || (dyn(o) == type[*Cell] && o.(*Cell) != nil) || (dyn(o) == type[*column] && o.(*column) != nil)) && chainOK(heap[valueProperty.chain], heap[valueProperty.key], heap[valueProperty.val], heap[propertyImpl.properties][propsCell(o)])
 
 //@ -- ecOf(e): the error container an ErrorReceiver resolves to (nil for a row that has none yet)
 //@ spec opaque ecOf(e Iface, h (Array Loc Loc)) *ErrorContainer = dyn(e) == type[*ErrorContainer] ? e.(*ErrorContainer) : h[fldloc(e.(*Row), 0)]
 //@ -- recvOK(e): a receiver that keeps what it is given: a live container, or a row (which creates one on demand)
-//@ pred recvOK(e Iface) = (dyn(e) == type[*ErrorContainer] && e.(*ErrorContainer) != nil) || (dyn(e) == type[*Row] && e.(*Row) != nil)
+//@ pred opaque recvOK(e Iface) = (dyn(e) == type[*ErrorContainer] && e.(*ErrorContainer) != nil) || (dyn(e) == type[*Row] && e.(*Row) != nil)
 //@ spec opaque errCount(ec *ErrorContainer, h (Array Loc Slice)) int = ec == nil ? 0 : len(h[fldloc(ec, 0)])
 
 //@ func (*Row).AddError
@@ -418,6 +463,7 @@ package tabular
 //@   requires [callbacks-live] forall i int :: {set.postCellRenderTime[i]} 0 <= i && i < len(set.postCellRenderTime) ==> set.postCellRenderTime[i] != nil
 //@   assigns loc(propertyImpl.properties, propsCell(owner)), new(valueProperty), ghost cbErrN, ghost cbErrLog, when dyn(errTaker) == type[*Row]: loc(Row.ErrorContainer, fldloc(errTaker.(*Row), 0)), new(ErrorContainer), when ecOf(errTaker, heap[Row.ErrorContainer]) != nil: ecOf(errTaker, heap[Row.ErrorContainer]).errors_, when ecOf(errTaker, heap[Row.ErrorContainer]) != nil: elemscap(ecOf(errTaker, heap[Row.ErrorContainer]).errors_)
 //@   ensures [owner-props-ok] ownerOK(owner)
+//@   ensures [other-chains-untouched] chainsStable(old(heap[valueProperty.chain]), old(heap[valueProperty.key]), old(heap[valueProperty.val]), heap[valueProperty.chain], heap[valueProperty.key], heap[valueProperty.val], old(alloc))
 //@   ensures [receiver] recvOK(errTaker) && (cbErrN > old(cbErrN) || old(ecOf(errTaker, heap[Row.ErrorContainer])) != nil ==> ecOf(errTaker, heap[Row.ErrorContainer]) != nil) && (old(ecOf(errTaker, heap[Row.ErrorContainer])) != nil ==> ecOf(errTaker, heap[Row.ErrorContainer]) == old(ecOf(errTaker, heap[Row.ErrorContainer])))
 //@   ensures [none-lost-none-duplicated] cbErrN >= old(cbErrN) && errCount(ecOf(errTaker, heap[Row.ErrorContainer]), heap[ErrorContainer.errors_]) == errCount(old(ecOf(errTaker, heap[Row.ErrorContainer])), old(heap[ErrorContainer.errors_])) + (cbErrN - old(cbErrN))
 //@   ensures [in-order] forall m int :: {cbErrLog[m]} old(cbErrN) <= m && m < cbErrN ==> ecOf(errTaker, heap[Row.ErrorContainer]).errors_[errCount(old(ecOf(errTaker, heap[Row.ErrorContainer])), old(heap[ErrorContainer.errors_])) + (m - old(cbErrN))] == cbErrLog[m]
@@ -427,6 +473,8 @@ package tabular
 //@   loop#1 invariant -1 <= rangeindex && rangeindex < len(cbList)
 //@   loop#1 invariant forall i int :: {cbList[i]} 0 <= i && i < len(cbList) ==> cbList[i] != nil
 //@   loop#1 invariant ownerOK(owner)
+//@   loop#1 invariant chainsStable(old(heap[valueProperty.chain]), old(heap[valueProperty.key]), old(heap[valueProperty.val]), heap[valueProperty.chain], heap[valueProperty.key], heap[valueProperty.val], old(alloc))
+//@   loop#1 invariant alloc >= old(alloc)
 //@   loop#1 invariant recvOK(errTaker) && (cbErrN > old(cbErrN) || old(ecOf(errTaker, heap[Row.ErrorContainer])) != nil ==> ecOf(errTaker, heap[Row.ErrorContainer]) != nil) && (old(ecOf(errTaker, heap[Row.ErrorContainer])) != nil ==> ecOf(errTaker, heap[Row.ErrorContainer]) == old(ecOf(errTaker, heap[Row.ErrorContainer])))
 //@   loop#1 invariant cbErrN >= old(cbErrN) && errCount(ecOf(errTaker, heap[Row.ErrorContainer]), heap[ErrorContainer.errors_]) == errCount(old(ecOf(errTaker, heap[Row.ErrorContainer])), old(heap[ErrorContainer.errors_])) + (cbErrN - old(cbErrN))
 //@   loop#1 invariant forall m int :: {cbErrLog[m]} old(cbErrN) <= m && m < cbErrN ==> ecOf(errTaker, heap[Row.ErrorContainer]).errors_[errCount(old(ecOf(errTaker, heap[Row.ErrorContainer])), old(heap[ErrorContainer.errors_])) + (m - old(cbErrN))] == cbErrLog[m]
@@ -436,3 +484,20 @@ package tabular
 //@   loop#1 invariant old(ecOf(errTaker, heap[Row.ErrorContainer])) != nil ==> (ecOf(errTaker, heap[Row.ErrorContainer]).errors_.arr == old(ecOf(errTaker, heap[Row.ErrorContainer]).errors_.arr) && ecOf(errTaker, heap[Row.ErrorContainer]).errors_.off == old(ecOf(errTaker, heap[Row.ErrorContainer]).errors_.off) && ecOf(errTaker, heap[Row.ErrorContainer]).errors_.cap == old(ecOf(errTaker, heap[Row.ErrorContainer]).errors_.cap)) || fresh(ecOf(errTaker, heap[Row.ErrorContainer]).errors_)
 //@   loop#1 invariant old(ecOf(errTaker, heap[Row.ErrorContainer])) == nil && ecOf(errTaker, heap[Row.ErrorContainer]) != nil ==> fresh(ecOf(errTaker, heap[Row.ErrorContainer])) && fresh(ecOf(errTaker, heap[Row.ErrorContainer]).errors_)
 //@   loop#1 decreases len(cbList) - rangeindex
+
+//@ -- attached(r): r is the row of its table that it claims to be
+//@ pred attached(r *Row) = r.inTable != nil && WF(r.inTable) && 1 <= r.rowNum && r.rowNum <= len(r.inTable.rows) && r.inTable.rows[r.rowNum-1] == r
+
+//@ func (*Row).Add
+//@   tags C02,C11,C13,C09
+//@   requires r != nil && rowOwn(r) && len(r.cells) <= 1099511627774 && cbsLive(r.rowCellCallbacks)
+//@   requires [row-shape] r.inTable == nil ==> (r.isSeparator ==> r.cells == nil) && (r.cells != nil ==> WFrow(r))
+//@   requires [row-attached] r.inTable != nil ==> attached(r)
+//@   requires [cell-ok] chainOK(heap[valueProperty.chain], heap[valueProperty.key], heap[valueProperty.val], c.properties) && cbsLive(c.callbacks)
+//@   ensures [returns-row] result == r
+//@   ensures [separator-misuse-is-one-error] old(r.cells) == nil ==> r.cells == nil && r.ErrorContainer != nil && len(r.ErrorContainer.errors_) == errCount(old(r.ErrorContainer), old(heap[ErrorContainer.errors_])) + 1 @C11
+//@   ensures [one-more-cell] old(r.cells) != nil ==> len(r.cells) == old(len(r.cells)) + 1 && r.cells[len(r.cells)-1].raw === c.raw && r.cells[len(r.cells)-1].str == c.str @C02
+//@   ensures [earlier-cells-kept] old(r.cells) != nil ==> forall j int :: {r.cells[j].raw} {old(r.cells[j].raw)} 0 <= j && j < old(len(r.cells)) ==> r.cells[j].raw === old(r.cells[j].raw) && r.cells[j].str == old(r.cells[j].str) @C02
+//@   ensures [detached-stays-wellformed] old(r.cells) != nil && r.inTable == nil ==> WFrow(r) @C02
+//@   ensures [attached-keeps-invariant] old(r.inTable) != nil ==> r.inTable == old(r.inTable) && WF(r.inTable) @C02,C09
+//@   ensures [columns-follow] old(r.inTable) != nil && old(r.cells) != nil ==> r.inTable.nColumns == max(old(r.inTable.nColumns), len(r.cells)) @C02
